@@ -101,3 +101,72 @@ def soup(rng, n):
     for _ in range(n):
         out += [ord(c) for c in rng.choice(frags)]
     return out
+
+
+SIMD_BUILDS = [("sse2", ["-DQENTEM_SSE2=1", "-msse2"]), ("avx2", ["-DQENTEM_AVX2=1", "-mavx2"])]
+
+
+def inject_ws(rng, u, maxrun=70):
+    """Long whitespace runs (0..maxrun units, so that a run can cover one or several 16/32-byte vector blocks
+    starting at any alignment) before/after structural units outside strings, and after the document."""
+    out, in_str, esc = [], False, False
+    ws = [32, 32, 32, 10, 9, 13]
+    def run():
+        k = rng.choice([0, 0, 1, 3, 14, 15, 16, 17, 27, 28, 29, 31, 32, 33, 47, 48, 63, 64, 65, rng.randrange(0, maxrun)])
+        return [rng.choice(ws) for _ in range(k)]
+    for x in u:
+        if in_str:
+            out.append(x)
+            if esc:
+                esc = False
+            elif x == 92:
+                esc = True
+            elif x == 34:
+                in_str = False
+                if rng.random() < 0.3:
+                    out += run()
+            continue
+        if x == 34:
+            in_str = True
+            out.append(x)
+        elif x in (91, 93, 123, 125, 44, 58):
+            if rng.random() < 0.4:
+                out += run()
+            out.append(x)
+            if rng.random() < 0.4:
+                out += run()
+        else:
+            out.append(x)
+    if rng.random() < 0.5:
+        out = run() + out
+    if rng.random() < 0.7:
+        out += run()
+    return out
+
+
+def simd_builds(ctx, h, lines, stream="simd-builds"):
+    """The same inputs through SSE2 and AVX2 builds of the harness (exact-size buffers, ASan/UBSan): every result
+    must equal the scalar build's, and no sanitizer fault."""
+    if not h:
+        return
+    base, _ = core.run_lines_parallel(h, lines, jobs=12)
+    have_avx2 = "avx2" in open("/proc/cpuinfo").read()
+    for name, extra in SIMD_BUILDS:
+        if name == "avx2" and not have_avx2:
+            ctx.notes.append("CPU without AVX2: AVX2 build not run")
+            continue
+        exe = ctx.build_harness("json_harness.cpp", flags=core.SAN_FLAGS + extra, tag="san_" + name)
+        if not exe:
+            continue
+        out, faults = core.run_lines_parallel(exe, lines, jobs=12)
+        for i, kind, err in faults:
+            ctx.fail("fault:" + kind, "sanitizer fault in the %s build of the JSON code on: %s" % (name, lines[i][:300]), {"line": lines[i], "build": name, "stderr": err})
+        n = 0
+        for l, a, b in zip(lines, base, out):
+            if b.startswith("FAULT") or a.startswith("FAULT"):
+                continue
+            if a != b:
+                n += 1
+                if n <= 3:
+                    ctx.fail("simd-differs", "%s build differs from the scalar build: %s -> %s (scalar %s)" % (name, l[:300], b[:200], a[:200]), {"line": l, "build": name, "simd": b, "scalar": a})
+        ctx.count("%s(%s)" % (stream, name), len(lines), len(set(lines)))
